@@ -184,6 +184,16 @@ pub fn gen_read(rng: &mut Rng, keys: u32) -> Op {
         rng.shuffle(&mut all);
         let n = rng.range(1, keys.min(4) as u64) as usize;
         all.truncate(n);
+        if rng.chance(1, 5) {
+            // the same key asked for twice, side by side or apart
+            let j = rng.usize_below(all.len());
+            let k = all[j];
+            if rng.chance(2, 3) {
+                all.insert(j, k);
+            } else {
+                all.push(k);
+            }
+        }
         all
     } else {
         vec![rng.below(keys as u64) as u32]
